@@ -15,12 +15,14 @@ sys.path.insert(0, os.path.join(C.VERIF, 'translate'))
 import py2coq  # noqa: E402
 import rewards2coq  # noqa: E402
 import transition2coq  # noqa: E402
+import loops2coq  # noqa: E402
 
 # one entry per translated source file: translator module, source, committed generated file, equivalence proofs
 TIES = {
     'coalescent_models': dict(mod=py2coq, src='coalescent_models.py', gen='CoalModelsGen', equiv='GenEquiv'),
     'rewards': dict(mod=rewards2coq, src='rewards.py', gen='RewardsGen', equiv='GenRewardsEquiv'),
     'transition': dict(mod=transition2coq, src='state_space.py', gen='TransitionGen', equiv='GenTransitionEquiv'),
+    'loops': dict(mod=loops2coq, src='distributions.py', gen='LoopsGen', equiv='GenLoopsEquiv'),
 }
 
 
